@@ -738,6 +738,9 @@ func driveMain(args []string) int {
 				infra = append(infra, "watchdog: a run did not return within its budget (replay file "+c+")")
 				continue
 			}
+			if reported["hang"] {
+				continue // one confirmed hang is the verdict; the others are not re-run (each costs 4x the budget)
+			}
 			cmd := exec.Command(bin, "replay", c)
 			cmd.Env = append(os.Environ(), "VERIF_WATCHDOG_MULT=4")
 			cmd.Run()
